@@ -12,6 +12,7 @@ use mahf::{
     state::common::{Evaluations, Evaluator, Populations},
     Configuration, ExecResult, Individual, Random, State, StateRegistry,
 };
+use better_any::{Tid, TidAble};
 use proptest::prelude::*;
 use serde::{Deserialize, Serialize};
 
@@ -233,6 +234,143 @@ fn step_oracle<I: Identifier>(c: &StepCase, cl: &mut u64) -> Result<(), Failure>
 }
 
 // ------------------------------------------------------------------------------------------------
+// (a') shadowed evaluators: a scope registers its own evaluator under the identifier the enclosing run also uses
+// ------------------------------------------------------------------------------------------------
+
+/// `pre` evaluation steps at the top level, then a scope (under `nest` further plain scopes) whose state initialiser
+/// registers its own evaluator for the same identifier and whose body holds `inner` evaluation steps, then `post`
+/// evaluation steps at the top level again.
+#[derive(Clone, Debug, Serialize, Deserialize)]
+pub struct ShadowCase {
+    pub n: u8,
+    pub id: u8,
+    pub pre: u8,
+    pub inner: u8,
+    pub post: u8,
+    pub nest: u8,
+}
+
+#[derive(Tid)]
+struct SeenHandle(Arc<Mutex<Vec<(char, usize)>>>);
+impl mahf::CustomState<'_> for SeenHandle {}
+
+struct Tagged {
+    tag: char,
+    seen: Arc<Mutex<Vec<(char, usize)>>>,
+}
+impl Evaluate for Tagged {
+    type Problem = RealP;
+    fn evaluate(&mut self, problem: &RealP, _state: &mut State<RealP>, individuals: &mut [Individual<RealP>]) {
+        self.seen.lock().unwrap().push((self.tag, individuals.len()));
+        for i in individuals {
+            i.evaluate_with(|s| problem.objective(s));
+        }
+    }
+}
+
+fn shadow_init<I: Identifier>(state: &mut State<RealP>) -> ExecResult<()> {
+    let seen = state.borrow::<SeenHandle>().0.clone();
+    state.insert(Evaluator::<RealP, I>::new(Tagged { tag: 'I', seen }));
+    Ok(())
+}
+
+fn shadow_merge(state: &mut State<RealP>, inner: State<RealP>) -> ExecResult<()> {
+    if let Ok(e) = inner.try_get_value::<Evaluations>() {
+        if inner.contains_at_top::<Evaluations>() {
+            if let Ok(mut total) = state.try_borrow_value_mut::<Evaluations>() {
+                *total += e;
+            }
+        }
+    }
+    Ok(())
+}
+
+pub struct ShadowCheck;
+
+impl Check for ShadowCheck {
+    type Case = ShadowCase;
+    fn name(&self) -> String {
+        "C06/shadowed-evaluator".into()
+    }
+    fn classes(&self) -> &'static [&'static str] {
+        &["population >= 2", "evaluation step at the top level after the scope", "scope nested below further scopes", "non-default identifier"]
+    }
+    fn oracle(&self, c: &ShadowCase) -> Outcome {
+        let mut cl = 0;
+        let r = match c.id % 3 {
+            0 => shadow_oracle::<Global>(c, &mut cl),
+            1 => shadow_oracle::<A>(c, &mut cl),
+            _ => shadow_oracle::<B>(c, &mut cl),
+        };
+        Outcome::new(cl & 3 == 3, cl, r)
+    }
+}
+
+fn shadow_oracle<I: Identifier>(c: &ShadowCase, cl: &mut u64) -> Result<(), Failure> {
+    use mahf::components::{evaluation::PopulationEvaluator, Scope};
+    let (n, pre, inner, post, nest) = ((c.n % 7) as usize, (c.pre % 3) as usize, 1 + (c.inner % 3) as usize, (c.post % 4) as usize, (c.nest % 3) as usize);
+    if n >= 2 {
+        *cl |= 1;
+    }
+    if post > 0 {
+        *cl |= 2;
+    }
+    if nest > 0 {
+        *cl |= 4;
+    }
+    if c.id % 3 != 0 {
+        *cl |= 8;
+    }
+    let problem = RealP::new(2, -10.0, 10.0, RealKind::Sphere);
+    let seen = Arc::new(Mutex::new(Vec::new()));
+    let mut reg = StateRegistry::new();
+    reg.insert(Evaluator::<RealP, I>::new(Tagged { tag: 'O', seen: seen.clone() }));
+    reg.insert(SeenHandle(seen.clone()));
+    reg.insert(Evaluations(0));
+    let mut ps = Populations::<RealP>::new();
+    ps.push((0..n).map(|k| Individual::new_unevaluated(vec![k as f64, 0.5])).collect());
+    reg.insert(ps);
+    reg.insert(Random::new(5));
+    let mut state: State<'static, RealP> = reg.into();
+    let step = || -> Box<dyn mahf::Component<RealP>> { PopulationEvaluator::<I>::new_with() };
+    let mut scoped: Box<dyn mahf::Component<RealP>> = Scope::new_with(shadow_init::<I>, (0..inner).map(|_| step()).collect::<Vec<_>>(), shadow_merge);
+    for _ in 0..nest {
+        scoped = Scope::new_with(|_| Ok(()), vec![scoped], shadow_merge);
+    }
+    let mut b = Configuration::<RealP>::builder();
+    for _ in 0..pre {
+        b = b.do_(step());
+    }
+    b = b.do_(scoped);
+    for _ in 0..post {
+        b = b.do_(step());
+    }
+    let cfg = b.build();
+    let at = format!("{c:?}");
+    match catch(|| cfg.run(&problem, &mut state)) {
+        Ok(Ok(())) => {}
+        Ok(Err(e)) => fail!("C06 evaluation step errs", "{at}: {e:#}"),
+        Err(p) => fail!("C06 evaluation step panics", "{at}: {p}"),
+    }
+    let got = seen.lock().unwrap().clone();
+    let mut want = vec![('O', n); pre];
+    want.extend(vec![('I', n); inner]);
+    want.extend(vec![('O', n); post]);
+    ensure_that!(
+        got == want,
+        "C06 evaluation step does not apply the evaluator registered for its scope",
+        "{at}: evaluator applications (O = the run's evaluator in the root scope, I = the evaluator the scope registered; with population size) {got:?}, expected {want:?}"
+    );
+    let steps = pre + inner + post;
+    let calls = problem.instr.calls();
+    ensure_that!(calls == (steps * n) as u64, "C06 objective not called exactly once per individual", "{at}: {calls} objective calls for {steps} evaluation steps on {n} individuals");
+    let evals = state.try_get_value::<Evaluations>().ok();
+    ensure_that!(evals == Some((steps * n) as u32), "C06 reported evaluations differ from objective calls", "{at}: Evaluations = {evals:?} after {calls} objective calls");
+    ensure_that!(state.contains_at_top::<Evaluator<RealP, I>>() && state.parent().is_none(), "C06 evaluator not put back into its scope", "{at}: the root scope has no evaluator after the run");
+    Ok(())
+}
+
+// ------------------------------------------------------------------------------------------------
 // (b) every evaluation step of template runs, and the run total
 // ------------------------------------------------------------------------------------------------
 
@@ -449,11 +587,11 @@ fn run_strategy(k: usize) -> impl Strategy<Value = RunCase> {
 }
 
 pub fn run_all(ctx: &mut Ctx, replay: Option<&Path>) {
-    ctx.rule("(a) component-level: a configuration consisting of one evaluation step with identifier Global/A/B, run (init, require, execute) on a prepared state: population 0-12 (unevaluated / correctly / stale evaluated individuals, duplicates by value), empty stack, 0-2 populations below, evaluator Sequential / Parallel inside a rayon pool of 1/2/4/16 threads (with latency jitter) / a recording harness evaluator, registered under the requested identifier, another one, or not at all, in the same or an outer scope; oracle: same individuals in the same order, all carrying f(solution), Evaluations == population size, objective call log == population as a multiset, evaluator back in the scope it came from, missing evaluator => Err before any objective call; non-trivial = population >= 2 with a registered evaluator. (b) run-level: every template, iteration- or evaluation-budget-bounded, sequential or parallel: the same audit around every PopulationEvaluator step (observer Before/After), reported evaluations == objective calls at the end, budget overshoot < one pass; non-trivial = run with an evaluation step on >= 2 individuals; distinct by case");
+    ctx.rule("(a) component-level: a configuration consisting of one evaluation step with identifier Global/A/B, run (init, require, execute) on a prepared state: population 0-12 (unevaluated / correctly / stale evaluated individuals, duplicates by value), empty stack, 0-2 populations below, evaluator Sequential / Parallel inside a rayon pool of 1/2/4/16 threads (with latency jitter) / a recording harness evaluator, registered under the requested identifier, another one, or not at all, in the same or an outer scope; oracle: same individuals in the same order, all carrying f(solution), Evaluations == population size, objective call log == population as a multiset, evaluator back in the scope it came from, missing evaluator => Err before any objective call; non-trivial = population >= 2 with a registered evaluator. (a') shadowed evaluators (exhaustive): evaluation steps before, inside and after a scope whose initialiser registers its own evaluator under the same identifier; every step must apply the evaluator its scope resolves (innermost), the run's evaluator must be applied again after the scope, counts exact. (b) run-level: every template, iteration- or evaluation-budget-bounded, sequential or parallel: the same audit around every PopulationEvaluator step (observer Before/After), reported evaluations == objective calls at the end, budget overshoot < one pass; non-trivial = run with an evaluation step on >= 2 individuals; distinct by case");
     ctx.assume("rayon's scheduler is not owned by the harness: pool sizes and objective latency jitter perturb completion order (counted), they do not enumerate it");
     let s = StepCheck;
     if let Some(p) = replay {
-        if ctx.replay_file(&s, p) {
+        if ctx.replay_file(&s, p) || ctx.replay_file(&ShadowCheck, p) {
             return;
         }
         for k in 0..21 {
@@ -465,6 +603,13 @@ pub fn run_all(ctx: &mut Ctx, replay: Option<&Path>) {
     }
     ctx.regressions(&s);
     ctx.random(&s, step_strategy(), ctx.tier.pick(20_000, 200_000));
+    let sh = ShadowCheck;
+    ctx.regressions(&sh);
+    ctx.exhaustive(
+        &sh,
+        "population 0-3 x identifier Global/A/B x 0-2 steps before x 1-3 steps inside the scope that registers its own evaluator x 0-3 steps after x 0-2 enclosing plain scopes",
+        (0u8..4).flat_map(|n| (0u8..3).flat_map(move |id| (0u8..3).flat_map(move |pre| (0u8..3).flat_map(move |inner| (0u8..4).flat_map(move |post| (0u8..3).map(move |nest| ShadowCase { n, id, pre, inner, post, nest })))))),
+    );
     let per = ctx.tier.pick(150, 1500);
     for k in 0..21 {
         let r = RunCheck(k);
